@@ -15,6 +15,7 @@ import (
 	"time"
 
 	"p9verif/evid"
+	"p9verif/memfs"
 
 	"github.com/hugelgupf/p9/fsimpl/composefs"
 	"github.com/hugelgupf/p9/fsimpl/localfs"
@@ -566,6 +567,118 @@ func firstLines(s, from string, n int) string {
 }
 
 // realFilesCase: QID type / mode agreement on real files of several types.
+// runWrappedNativeCase: the QID-translating wrapper around a mounted backend
+// that implements WalkGetAttr itself (a p9 client file does, the in-tree file
+// systems do not): every way of learning a file's QID through the mount -
+// Walk, WalkGetAttr, GetAttr, Readdir - must give the same translated path, and
+// distinct files distinct paths.
+func runWrappedNativeCase(n int, twoMounts bool) *fail {
+	mk := func() *memfs.FS {
+		fs := memfs.New(memfs.Options{NativeWalkGetAttr: true})
+		d, _ := fs.Tree.Mkdir(fs.Tree.Root, "sub", 0o755, 0, 0)
+		for i := 0; i < n; i++ {
+			fs.Tree.Create(fs.Tree.Root, fmt.Sprintf("f%d", i), 0o644, 0, 0)
+			fs.Tree.Create(d, fmt.Sprintf("g%d", i), 0o644, 0, 0)
+		}
+		return fs
+	}
+	opts := []composefs.Opt{composefs.WithFile("top", staticfs.ReadOnlyFile("t")), composefs.WithMount("m1", mk())}
+	mounts := []string{"m1"}
+	if twoMounts {
+		opts = append(opts, composefs.WithMount("m2", mk()))
+		mounts = append(mounts, "m2")
+	}
+	cfs, err := composefs.New(opts...)
+	if err != nil {
+		return failf("harness-composefs", "HARNESS-ERROR %v", err)
+	}
+	root, err := cfs.Attach()
+	if err != nil {
+		return failf("harness-attach", "HARNESS-ERROR %v", err)
+	}
+	owner := map[uint64]string{}
+	claim := func(q p9.QID, who string) *fail {
+		if prev, ok := owner[q.Path]; ok && prev != who {
+			return failf("mapper-collision:wrapped-native-backend", "%s and %s are distinct files with the same QID path %#x", prev, who, q.Path)
+		}
+		owner[q.Path] = who
+		return nil
+	}
+	if qs, f, err := root.Walk([]string{"top"}); err == nil && len(qs) == 1 {
+		f.Close()
+		if f := claim(qs[0], "/top"); f != nil {
+			return f
+		}
+	}
+	for _, m := range mounts {
+		_, md, err := root.Walk([]string{m})
+		if err != nil {
+			return failf("harness-walk", "HARNESS-ERROR walk %s: %v", m, err)
+		}
+		check := func(dir p9.File, prefix string, names []string) *fail {
+			for _, nm := range names {
+				who := prefix + "/" + nm
+				qs, f1, err := dir.Walk([]string{nm})
+				if err != nil || len(qs) != 1 {
+					return failf("harness-walk", "HARNESS-ERROR Walk(%s): %v", who, err)
+				}
+				gq, _, _, err := f1.GetAttr(p9.AttrMaskAll)
+				f1.Close()
+				if err != nil {
+					return failf("harness-getattr", "HARNESS-ERROR GetAttr(%s): %v", who, err)
+				}
+				wq, f2, _, _, err := dir.WalkGetAttr([]string{nm})
+				if err != nil || len(wq) != 1 {
+					return failf("harness-walkgetattr", "HARNESS-ERROR WalkGetAttr(%s): %v", who, err)
+				}
+				f2.Close()
+				if qs[0] != gq || qs[0] != wq[0] {
+					return failf("mapper-unstable:wrapped-native-backend", "%s: Walk reports QID path %#x, GetAttr %#x, WalkGetAttr %#x", who, qs[0].Path, gq.Path, wq[0].Path)
+				}
+				if f := claim(qs[0], who); f != nil {
+					return f
+				}
+			}
+			return nil
+		}
+		var top, below []string
+		for i := 0; i < n; i++ {
+			top = append(top, fmt.Sprintf("f%d", i))
+			below = append(below, fmt.Sprintf("g%d", i))
+		}
+		top = append(top, "sub")
+		if f := check(md, "/"+m, top); f != nil {
+			return f
+		}
+		// two components in one WalkGetAttr, and the entries of the subdirectory
+		wq, sd, _, _, err := md.WalkGetAttr([]string{"sub"})
+		if err != nil || len(wq) != 1 {
+			return failf("harness-walkgetattr", "HARNESS-ERROR WalkGetAttr(sub): %v", err)
+		}
+		if f := claim(wq[0], "/"+m+"/sub"); f != nil {
+			return f
+		}
+		if f := check(sd, "/"+m+"/sub", below); f != nil {
+			return f
+		}
+		// listing
+		_, l, err := md.Walk(nil)
+		if err == nil {
+			if _, _, err := l.Open(p9.ReadOnly); err == nil {
+				ents, _ := l.Readdir(0, 1<<20)
+				for _, e := range ents {
+					if f := claim(e.QID, "/"+m+"/"+e.Name); f != nil {
+						f.Msg += " (Readdir)"
+						return f
+					}
+				}
+			}
+			l.Close()
+		}
+	}
+	return nil
+}
+
 func runRealFiles() *fail {
 	dir, err := os.MkdirTemp("", "p9verif-c20r-")
 	if err != nil {
@@ -740,6 +853,23 @@ func TestC20(t *testing.T) {
 		h.Case(evid.Hash64([]byte("devino-barrier"), u64b(env.Seed, uint64(env.Shard))), true, "devino:concurrent-first-lookups")
 		h.Count("devino:pairs-first-looked-up-by-8-goroutines-at-once", int64(N))
 		h.report("devino-conc", cf, bad)
+	}
+
+	// the translating wrapper over a backend with a WalkGetAttr of its own
+	if env.Shard == 0 {
+		for _, n := range []int{1, 3, 40} {
+			for _, two := range []bool{false, true} {
+				f := runWrappedNativeCase(n, two)
+				h.Case(evid.Hash64([]byte("wrapped-native"), u32b(uint32(n)), []byte(fmt.Sprint(two))), true, "mapper:wrapped-native-backend")
+				if f != nil && strings.HasPrefix(f.Sig, "harness-") {
+					t.Errorf("HARNESS-ERROR %s", f.Msg)
+					continue
+				}
+				if h.report("wrapped-native", f, map[string]any{"n": n, "two_mounts": two}) {
+					return
+				}
+			}
+		}
 	}
 
 	// (3) mapper, sequential model
